@@ -19,7 +19,7 @@ ASSUMPTIONS = [
 
 
 def gen(rng, tier, no, wide=False):
-    case = G.gen_case(rng, nsteps=rng.choice([0, 1, 2, 3, 4]), sync_rate=rng.choice([0, 0.1, 0.2]))
+    case = G.gen_case(rng, nsteps=rng.choice([0, 1, 2, 3, 4]), sync_rate=rng.choice([0, 0.1, 0.2]), nranks=rng.choice([1, 2, 2, 3]))
     # GPU-side sync records so that the table-aware device predicate matters; they sit anywhere in the file, so that in a
     # frame concatenated over ranks their row label is some other rank's host event
     for r, ev in case["ranks"].items():
@@ -40,7 +40,7 @@ def gen(rng, tier, no, wide=False):
     nf = rng.choice([1, 1, 1, 2, 2, 3])
     fl = []
     for _ in range(nf):
-        k = rng.choice(["iteration", "iterIndex", "rank", "timeRange", "name", "name", "gpu", "cpu", "memcopy"])
+        k = rng.choice(["iteration", "iterIndex", "rank", "timeRange", "name", "name", "gpu", "gpu", "cpu", "cpu", "memcopy"])
         if k == "iteration":
             fl.append([k, sorted(set(rng.sample(steps + [-1, 999], rng.randint(1, 2))))])
         elif k == "iterIndex":
